@@ -321,6 +321,41 @@ def r7_rewrites_preserve_type(ctx, rule="C12.R7"):
     ctx.require(rule, 1)
 
 
+def r9_subscripts_are_numeric(ctx, rule="C12.R9"):
+    """`an accepted program never raises Type mismatch`: array subscripts (`A(i)`) and array bounds
+    (`DIM A(lo TO hi)`) are converted to integers at run time, so the checker has to refuse a
+    non-numeric expression there.  The two converter functions that build these nodes - the one that
+    builds Expression::ArrayElement from the parsed arguments and the one that builds an
+    ArrayDimension - must test the converted expressions for castability (CanCastTo)."""
+    prog = ctx.prog
+    n = 0
+    for what, pred in (("Expression::ArrayElement", lambda r: (r.get("adt") or "").endswith("::Expression") and r.get("variant") == "ArrayElement"),
+                       ("ArrayDimension", lambda r: (r.get("adt") or "").endswith("::ArrayDimension"))):
+        builders = []
+        for f in prog.fns.values():
+            if f.crate != "rusty_linter" or "::converter::" not in f.id or f.kind == "const":
+                continue
+            if any(st["k"] == "assign" and st["r"].get("k") == "agg" and pred(st["r"])
+                   for blk in f.body.blocks for st in blk["s"]):
+                builders.append(prog.enclosing_fn(f) or f)
+        if not builders:
+            raise CheckError("%s: no converter function builds %s" % (rule, what))
+        for g in sorted(set(builders), key=lambda f: f.id):
+            n += 1
+            scope = [g] + prog.closures_of(g)
+            # ... or a private helper of the same file that it calls
+            scope += [prog.fns[c] for h in list(scope) for c in prog.call_edges(h)
+                      if c in prog.fns and prog.fns[c].file == g.file and prog.fns[c] not in scope]
+            checks = [t for h in scope for _b, t in h.body.calls()
+                      if (t.get("cpath") or "").split("::")[-1] == "can_cast_to"]
+            name = g.path.split("::", 1)[1]
+            ctx.decide(bool(checks), rule, "%s:%s" % (rule, name), g.loc,
+                       "the index / bound expressions are tested with can_cast_to",
+                       "%s builds %s without testing the type of the index / bound expressions: `A(\"x\")` or "
+                       "`DIM A(1 TO \"x\")` is accepted by the checker and raises Type mismatch at run time" % (name, what))
+    ctx.require(rule, 2)
+
+
 def run(ctx):
     common.install(ctx)
     T = ot.OpTables(ctx.prog)
@@ -332,3 +367,5 @@ def run(ctx):
     r5_condition_typing(ctx, T)
     r6_fixed_length_string_is_a_string(ctx, T)
     r7_rewrites_preserve_type(ctx)
+    c08.r10_child_helper_on_own_node(ctx, "C12.R8")
+    r9_subscripts_are_numeric(ctx)
